@@ -27,8 +27,17 @@ class AsyncioRunner(BaseRunner):
         self.asyncio_loop.call_soon_threadsafe(self._setup_payload, payload)
 
     def run_payload(self, payload: Callable[[], Coroutine]):
-        future = asyncio.run_coroutine_threadsafe(payload(), self.asyncio_loop)
+        future = asyncio.run_coroutine_threadsafe(
+            self._run_payload(payload), self.asyncio_loop
+        )
         return future.result()
+
+    async def _run_payload(self, payload: Callable[[], Coroutine]):
+        if self._payload_failure.done():
+            # the runner is closing or has failed: a coroutine started now would
+            # never be cancelled nor awaited before the event loop is closed
+            raise RuntimeError(f"cannot run payload {payload} during shutdown")
+        return await payload()
 
     def _setup_payload(self, payload: Callable[[], Awaitable]):
         if self._payload_failure.done():
